@@ -427,7 +427,35 @@ func init() {
 						p.BlockSize = maxInt(1, p.BufferSize/r.Pick(1, 2, 3, 4))
 					}
 				}})
-			if faults && t.P.Plan != nil && len(t.P.Plan.Events) > 0 {
+			if r.Chance(0.35) {
+				// stream lengths and fault / EOF positions exactly at the fill
+				// boundaries BufferSize + m*(BufferSize-ShrinkSize)
+				bc := t.P.defaults()
+				step := bc.BufferSize - bc.ShrinkSize
+				if step < 1 {
+					step = 1
+				}
+				at := bc.BufferSize + r.Intn(4)*step
+				if r.Chance(0.3) {
+					at = r.Intn(4) * maxInt(1, bc.BlockSize)
+				}
+				if at <= 20000 {
+					if r.Chance(0.5) || at > len(t.Input) {
+						fam := inputFamilies[r.Intn(len(inputFamilies))]
+						t.Input = genInput(r, at, fam)
+						if t.P.Plan == nil {
+							t.P.Plan = &RPlan{}
+						}
+						t.P.Plan.EOFWithData = r.Chance(0.7)
+						if r.Chance(0.5) {
+							t.P.Plan.Cuts = nil
+							t.P.Plan.ByteFrom, t.P.Plan.ByteTo, t.P.Plan.MaxChunk = 0, 0, 0
+						}
+					} else if faults && t.P.Plan != nil {
+						t.P.Plan.Events = append(t.P.Plan.Events, REvent{At: at - r.Intn(3), Kind: "err", Keep: r.Intn(3), ID: 77})
+					}
+				}
+			} else if faults && t.P.Plan != nil && len(t.P.Plan.Events) > 0 {
 				// stratified placement of the first fault over the stream
 				n := len(t.Input)
 				if n > 0 {
@@ -459,7 +487,13 @@ func init() {
 	// ---------------------------------------------------------------- decoder world
 	register(&Prop{ID: "C04",
 		Gen: func(r *RNG, tier string, run int) *Trace {
-			return genDecoderTrace(r, dgen{nOps: 60, sizes: "fit", readBias: 6, resetW: 1})
+			g := dgen{nOps: 60, sizes: "fit", readBias: 6, resetW: 1, firstFault: -1}
+			if run%4 == 3 {
+				// stratum with a partially accepting / failing writer: "each byte
+				// once and in order" must also hold when WriteTo/Flush is retried
+				g.wfaults, g.retry, g.firstFault = true, 0.7, (run/4)%10
+			}
+			return genDecoderTrace(r, g)
 		},
 		Exec:     execDecoder("C04"),
 		NonTriv:  func(res *Result) bool { return pr(res, "decoder_shrink_inside_call") || pr(res, "partial_read_cursor") },
